@@ -91,7 +91,7 @@ pub struct MPattern {
 
 impl MPattern {
     pub fn accepts(&self, x: u8) -> bool {
-        x < 3 && (self.mask >> x) & 1 == 1
+        self.mask < 8 && x < 3 && (self.mask >> x) & 1 == 1
     }
 
     pub fn lower_bound(&self) -> usize {
@@ -128,6 +128,8 @@ pub enum Pred {
     DefaultBody(M),
     /// the mock panics (and records the error)
     MockPanic(PanicClass, Option<PatId>),
+    /// user-side code panics with this message; log = what ran before the panic
+    UserPanic(&'static str, Vec<LogEv>),
     /// the call is counted for this pattern, but which response it gets is not specified
     /// (a match beyond the end of a chain whose last segment is exactly quantified)
     Unspecified(PatId),
@@ -150,6 +152,8 @@ pub struct Model {
     pub errors: Vec<PanicClass>,
     /// a call with unspecified outcome happened (recorded errors are then unknown)
     pub unspecified: bool,
+    /// argument for which real functions / default bodies panic (user panic)
+    pub user_panic_arg: Option<u8>,
 }
 
 pub fn pattern_from_spec(pat: &PatSpec, entry: Option<Entry>, clause: usize) -> MPattern {
@@ -272,16 +276,27 @@ impl Model {
             total_slots: slot,
             errors: vec![],
             unspecified: false,
+            user_panic_arg: None,
         })
     }
 
-    fn unmock(&mut self, m: M) -> Pred {
+    fn unmock(&mut self, m: M, x: u8) -> Pred {
         if m.has_unmock_fn() {
+            if self.user_panic_arg == Some(x) {
+                return Pred::UserPanic(USER_PANIC_REAL, vec![LogEv::Real(m, x)]);
+            }
             Pred::Real(m)
         } else {
             self.errors.push(PanicClass::CannotUnmock);
             Pred::MockPanic(PanicClass::CannotUnmock, None)
         }
+    }
+
+    fn default_body(&mut self, m: M, x: u8) -> Pred {
+        if self.user_panic_arg == Some(x) {
+            return Pred::UserPanic(USER_PANIC_DEFAULT, vec![LogEv::DefaultBody(m, x)]);
+        }
+        Pred::DefaultBody(m)
     }
 
     fn fail(&mut self, class: PanicClass, pat: Option<PatId>) -> Pred {
@@ -305,9 +320,9 @@ impl Model {
     pub fn call(&mut self, m: M, x: u8) -> Pred {
         let Some(pats) = self.methods.get(&m) else {
             return if m.has_default_body() {
-                Pred::DefaultBody(m)
+                self.default_body(m, x)
             } else if self.partial {
-                self.unmock(m)
+                self.unmock(m, x)
             } else {
                 self.fail(PanicClass::NoMockImpl, None)
             };
@@ -315,11 +330,17 @@ impl Model {
 
         let ordered = pats[0].ordered;
         let index = if !ordered {
-            match pats.iter().position(|p| p.accepts(x)) {
+            match pats.iter().position(|p| p.accepts(x) || p.mask >= 254) {
+                Some(i) if pats[i].mask == MASK_NO_MATCHER_FN => {
+                    return self.fail(PanicClass::NoMatcherFn, Some((m, i)));
+                }
+                Some(i) if pats[i].mask == MASK_PANICKING_MATCHER => {
+                    return Pred::UserPanic(USER_PANIC_MATCHER, vec![]);
+                }
                 Some(i) => i,
                 None => {
                     return if self.partial {
-                        self.unmock(m)
+                        self.unmock(m, x)
                     } else {
                         self.fail(PanicClass::NoMatch, None)
                     };
@@ -340,6 +361,12 @@ impl Model {
                     };
                 }
                 Some(i) => {
+                    if pats[i].mask == MASK_NO_MATCHER_FN {
+                        return self.fail(PanicClass::NoMatcherFn, Some((m, i)));
+                    }
+                    if pats[i].mask == MASK_PANICKING_MATCHER {
+                        return Pred::UserPanic(USER_PANIC_MATCHER, vec![]);
+                    }
                     if !pats[i].accepts(x) {
                         return self.fail(PanicClass::InputsNotMatched, Some((m, i)));
                     }
@@ -380,12 +407,15 @@ impl Model {
                 Pred::Unspecified((m, index))
             }
             Resp::RetDefault => Pred::Value(0),
+            Resp::Ans(id) | Resp::AnsArc(id) if id >= PANICKING_ANSWER_ID => {
+                Pred::UserPanic(USER_PANIC_ANSWER, vec![LogEv::Answer(id, x)])
+            }
             Resp::Ans(id) | Resp::AnsArc(id) => Pred::Answer(id),
             Resp::Panics(_) => self.fail(PanicClass::Explicit, Some((m, index))),
-            Resp::Unmock => self.unmock(m),
+            Resp::Unmock => self.unmock(m, x),
             Resp::DefaultImpl => {
                 if m.has_default_body() {
-                    Pred::DefaultBody(m)
+                    self.default_body(m, x)
                 } else {
                     self.fail(PanicClass::NoDefaultImpl, None)
                 }
